@@ -173,7 +173,10 @@ def wrap_walker(w, counter):
         w.functions[k] = g
 
 
-class WorkBudgetExceeded(Exception):
+class WorkBudgetExceeded(BaseException):
+    """(BaseException: an `except Exception` inside the library must not
+    swallow the abort; it is raised again at every further function entry /
+    timer tick until the measurement is stopped.)"""
     pass
 
 
@@ -216,7 +219,6 @@ class CodeCounter(object):
             self.walks += 1
             self.counter.n += 1
         if self.budget is not None and self.work > self.budget:
-            self.active = False
             raise WorkBudgetExceeded(self.work)
         return None
 
@@ -233,11 +235,12 @@ class CodeCounter(object):
             import signal
 
             def on_cpu(signum, frame):
-                self.active = False
+                if not self.active:
+                    return
                 raise WorkBudgetExceeded('%d entries and %d s of CPU' % (
                     self.work, cpu_s))
             signal.signal(signal.SIGVTALRM, on_cpu)
-            signal.setitimer(signal.ITIMER_VIRTUAL, cpu_s)
+            signal.setitimer(signal.ITIMER_VIRTUAL, cpu_s, 1.0)
             self.armed = True
 
     def stop(self):
@@ -397,6 +400,9 @@ def run(rep):
             if rep.out_of_time():
                 rep.notes.append('truncated at %s/%s' % (fam, proc))
                 return
+            if os.environ.get('VERIF_TRACE'):
+                sys.stderr.write('C20 %s %s\n' % (fam, proc))
+                sys.stderr.flush()
             # ---- (1) diamonds: callbacks linear in the number of nodes
             counts = []
             try:
